@@ -8,7 +8,7 @@
 (* Model check: the error category follows the signature table, restated   *)
 (* here independently as a table of admissible argument types.             *)
 (***************************************************************************)
-EXTENDS JMES, Json, Toks, DocsCall, SequencesExt
+EXTENDS JMES, Json, Toks, DocsCall, SequencesExt, CallTypes
 
 CONSTANTS Emit, Prop, Small   \* Small: pool size used from the third argument on
 
@@ -22,30 +22,6 @@ ArgToks(i) == IF i <= NV THEN <<Json(EncJSON(Vals[i]))>> ELSE Refs[i - NV]
 FnSeq == SetToSeq(FnNames \cup { <<110,111,115,117,99,104>> })
 \* how many arguments are tried: 0 .. max + 1 (variadic: 0 .. 3)
 MaxTry(f) == IF f \notin FnNames THEN 2 ELSE IF Sigs[f].max < 0 THEN 3 ELSE Sigs[f].max + 1
-
-\* admissible top-level types per position (independent restatement)
-AnyT == {"null", "bool", "num", "str", "arr", "obj"}
-ArgTypes(f, i) ==
-  CASE f \in {<<97,98,115>>, <<99,101,105,108>>, <<102,108,111,111,114>>} -> {"num"}
-    [] f \in {<<97,118,103>>, <<115,117,109>>, <<109,97,120>>, <<109,105,110>>, <<115,111,114,116>>, <<102,114,111,109,95,105,116,101,109,115>>} -> {"arr"}
-    [] f = <<99,111,110,116,97,105,110,115>> -> IF i = 1 THEN {"arr", "str"} ELSE AnyT
-    [] f \in {<<101,110,100,115,95,119,105,116,104>>, <<115,116,97,114,116,115,95,119,105,116,104>>} -> {"str"}
-    [] f \in {<<102,105,110,100,95,102,105,114,115,116>>, <<102,105,110,100,95,108,97,115,116>>} -> IF i <= 2 THEN {"str"} ELSE {"num"}
-    [] f \in {<<105,116,101,109,115>>, <<107,101,121,115>>, <<118,97,108,117,101,115>>} -> {"obj"}
-    [] f = <<106,111,105,110>> -> IF i = 1 THEN {"str"} ELSE {"arr"}
-    [] f = <<108,101,110,103,116,104>> -> {"str", "arr", "obj"}
-    [] f \in {<<108,111,119,101,114>>, <<117,112,112,101,114>>} -> {"str"}
-    [] f = <<109,101,114,103,101>> -> {"obj"}
-    [] f \in {<<110,111,116,95,110,117,108,108>>, <<116,111,95,97,114,114,97,121>>, <<116,111,95,110,117,109,98,101,114>>, <<116,111,95,115,116,114,105,110,103>>, <<116,121,112,101>>} -> AnyT
-    [] f \in {<<112,97,100,95,108,101,102,116>>, <<112,97,100,95,114,105,103,104,116>>} -> IF i = 2 THEN {"num"} ELSE {"str"}
-    [] f = <<114,101,112,108,97,99,101>> -> IF i = 4 THEN {"num"} ELSE {"str"}
-    [] f = <<114,101,118,101,114,115,101>> -> {"str", "arr"}
-    [] f = <<115,112,108,105,116>> -> IF i = 3 THEN {"num"} ELSE {"str"}
-    [] f \in {<<116,114,105,109>>, <<116,114,105,109,95,108,101,102,116>>, <<116,114,105,109,95,114,105,103,104,116>>} -> {"str"}
-    [] f = <<122,105,112>> -> {"arr"}
-    [] f = <<109,97,112>> -> {"arr"}
-    [] f \in {<<115,111,114,116,95,98,121>>, <<109,97,120,95,98,121>>, <<109,105,110,95,98,121>>, <<103,114,111,117,112,95,98,121>>} -> {"arr"}
-    [] OTHER -> AnyT
 
 VARIABLES bucket, inst     \* bucket = <<fn index, nargs>>, inst = first argument alternative (0 if nargs = 0) or -1
 Init == /\ bucket \in { <<fi, n>> : fi \in 1..Len(FnSeq), n \in 0..4 }
